@@ -260,6 +260,21 @@ for _k, _v in R8.items():
     if _k in P and "text" in P[_k] and _v not in P[_k]["text"]:
         P[_k]["text"] += _v
 
+R9 = {
+ "C03": " Also (round 7): an optional bank setting (#outp, #size, #labelalign, and accessors that answer None for an absent one) is unwrapped only behind a dominating test of that setting; output names are compared after every name was settled.",
+ "C07": " Also (round 7): the candidate loops cannot end before every candidate was tried; the exact-part count descends into every nested match.",
+ "C08": " Also (round 7): the candidate loops cannot end before every candidate was tried.",
+ "C10": " Also (round 7): a map insertion inside a loop over a hash container takes its key from one expression of the element (no collisions for the hash order to arbitrate).",
+ "C11": " Also (round 7): a rounded-down granule count (len / granule) is never compared with a position.",
+ "C14": " Also (round 7): every Ok of filename_navigate is the unchanged library path or comes after the `..` collapse loop.",
+ "C15": " Also (round 7): an #if condition is evaluated under the context of the nearest preceding symbol of any depth (selection by node kind only).",
+ "C17": " Also (round 7): the asm driver's pass counter runs up to the same budget as the main resolver's.",
+ "C18": " Also (round 7): output names are compared after every name was settled.",
+}
+for _k, _v in R9.items():
+    if _k in P and "text" in P[_k] and _v not in P[_k]["text"]:
+        P[_k]["text"] += _v
+
 
 def main():
     props = [json.loads(l) for l in open(os.path.join(VERIF, "properties.jsonl"))]
